@@ -54,5 +54,5 @@ MStep ==
             ELSE IF delBad # {} THEN ToString(<<"deleted", sf, sn, CHOOSE x \in delBad : TRUE>>)
             ELSE "")
 MSpec == MInit /\ [][MStep]_mvars
-Report == (status[1] # "run") => PrintT(ToJson([pid |-> pid, dec |-> dec, inp |-> inp, bad |-> bad, log |-> log, out |-> Out, xlog |-> xlog, xnode |-> xnode, xfirst |-> xfirst, delx |-> delx, oc |-> oc, finx |-> finx]))
+Report == (status[1] # "run") => PrintT(ToJson([pid |-> pid, dec |-> dec, inp |-> inp, bad |-> bad, log |-> log, out |-> Out, xlog |-> xlog, xnode |-> xnode, xfirst |-> xfirst, delx |-> delx, oc |-> oc, finx |-> finx, gl |-> Globals]))
 =============================================================================
